@@ -296,4 +296,51 @@ def r19_6(ctx):
     ctx.floor(n, 2, "buffer clears / pending reads")
 
 
-RULES = [r19_1, r19_2, r19_3, r19_4, r19_5, r19_6]
+def r19_8(ctx):
+    from .common import memo_rule
+    memo_rule(ctx, "R19.8", ["style", "color", "ansi", "file_proxy"], 4)
+
+
+def r19_9(ctx):
+    ctx.rule("R19.9", "per-proxy state: the pending-line buffer and the decoder of a FileProxy are instance attributes created in __init__ (a fresh list / decoder per proxy); no mutable class-level default is mutated through self (stdout's partial line must not leak into stderr's)")
+    c = ctx.repo.cls("file_proxy:FileProxy")
+    init = c.method("__init__")
+    if init is None:
+        raise AnchorVanished("FileProxy.__init__ not found")
+    inst = {}
+    for x in walk_local(init.node):
+        if isinstance(x, (ast.Assign, ast.AnnAssign)):
+            t = x.targets[0] if isinstance(x, ast.Assign) else x.target
+            if isinstance(t, ast.Attribute) and norm(t.value) == "self" and x.value is not None:
+                inst[t.attr] = x.value
+    mutated = set()
+    for name, lst in c.methods.items():
+        for f in lst:
+            al = {norm(a.targets[0]): norm(a.value) for a in walk_local(f.node) if isinstance(a, ast.Assign) and len(a.targets) == 1 and norm(a.value).startswith("self.")}
+            for x in walk_local(f.node):
+                base = None
+                if isinstance(x, ast.Call) and isinstance(x.func, ast.Attribute) and x.func.attr in ("append", "extend", "clear", "pop", "insert"):
+                    base = norm(x.func.value)
+                if isinstance(x, ast.Delete):
+                    for t in x.targets:
+                        if isinstance(t, ast.Subscript):
+                            base = norm(t.value)
+                if base:
+                    base = al.get(base, base)
+                    if base.startswith("self."):
+                        mutated.add(base[5:])
+    n = 0
+    for attr in sorted(mutated):
+        n += 1
+        v = inst.get(attr)
+        ok = v is not None and isinstance(v, (ast.List, ast.Dict, ast.Set, ast.Call, ast.ListComp))
+        ctx.check(ok, c.fq, f"self.{attr}", init.where, f"self.{attr} is created afresh in __init__",
+                  f"`self.{attr}` is mutated by FileProxy's methods but is not created in __init__ (class-level default): every proxy shares one list, so a partial line written to stdout is glued in front of the next stderr line and disappears from its own stream")
+    ctx.floor(n, 1, "mutated FileProxy attributes")
+    for st in c.node.body:
+        if isinstance(st, (ast.Assign, ast.AnnAssign)) and getattr(st, "value", None) is not None and isinstance(st.value, (ast.List, ast.Dict, ast.Set)):
+            t = st.targets[0] if isinstance(st, ast.Assign) else st.target
+            ctx.check(norm(t).lstrip("_") not in {a.lstrip("_") for a in mutated}, c.fq, norm(st), f"{c.module.relpath}:{st.lineno}", "no mutable class-level default for mutated state", f"class-level mutable default `{norm(st)}` is mutated through self")
+
+
+RULES = [r19_1, r19_2, r19_3, r19_4, r19_5, r19_6, r19_8, r19_9]
